@@ -164,3 +164,47 @@ Proof.
   destruct (float_ok (a :: w)); [now inversion Hv|discriminate].
 Qed.
 End Scalars.
+
+(* the empty containers: [] and {} read back as the empty list and the empty object at any depth the
+   nesting bound admits *)
+Section Empties.
+Variable float_ok : list byte -> bool.
+
+Theorem read_value_empty_list_written s k fuel d :
+  ready s (91 :: 93 :: k) -> 2 <= fuel -> S d <= max_nesting ->
+  exists s', read_value float_ok fuel d s = ROk (PList []) s' /\ ready s' k.
+Proof.
+  intros Hr Hf Hd. destruct fuel as [|[|f]]; try lia.
+  destruct (skip_space_nonspace s 91 _ (S f) Hr) as (s1 & E & R1 & _ & _ & _); [lia|vm_compute; reflexivity|lia|].
+  destruct (read_byte_ready _ _ _ R1) as (s2 & E2 & R2).
+  destruct (skip_space_nonspace s2 93 _ (S f) R2) as (s3 & E3 & R3 & _ & _ & _); [lia|vm_compute; reflexivity|lia|].
+  destruct (read_byte_ready _ _ _ R3) as (s4 & E4 & R4).
+  exists s4. split; [|exact R4].
+  cbn [read_value]. rewrite E.
+  change (Nat.eqb 91 0) with false. change (Nat.eqb 91 (nn 34)) with false. change (Nat.eqb 91 (nn 36)) with false.
+  change (Nat.eqb 91 (nn 45) || ((nn 48 <=? 91) && (91 <=? nn 57))) with false.
+  change (Nat.eqb 91 (nn 91)) with true. cbv iota. rewrite E2.
+  destruct (Nat.ltb max_nesting (S d)) eqn:El; [apply Nat.ltb_lt in El; lia|].
+  cbn [read_list]. rewrite E3.
+  change (Nat.eqb 93 0) with false. change (Nat.eqb 93 (nn 93)) with true. cbv iota. rewrite E4. reflexivity.
+Qed.
+
+Theorem read_value_empty_map_written s k fuel d :
+  ready s (123 :: 125 :: k) -> 2 <= fuel -> S d <= max_nesting ->
+  exists s', read_value float_ok fuel d s = ROk (PMap []) s' /\ ready s' k.
+Proof.
+  intros Hr Hf Hd. destruct fuel as [|[|f]]; try lia.
+  destruct (skip_space_nonspace s 123 _ (S f) Hr) as (s1 & E & R1 & _ & _ & _); [lia|vm_compute; reflexivity|lia|].
+  destruct (read_byte_ready _ _ _ R1) as (s2 & E2 & R2).
+  destruct (skip_space_nonspace s2 125 _ (S f) R2) as (s3 & E3 & R3 & _ & _ & _); [lia|vm_compute; reflexivity|lia|].
+  destruct (read_byte_ready _ _ _ R3) as (s4 & E4 & R4).
+  exists s4. split; [|exact R4].
+  cbn [read_value]. rewrite E.
+  change (Nat.eqb 123 0) with false. change (Nat.eqb 123 (nn 34)) with false. change (Nat.eqb 123 (nn 36)) with false.
+  change (Nat.eqb 123 (nn 45) || ((nn 48 <=? 123) && (123 <=? nn 57))) with false.
+  change (Nat.eqb 123 (nn 91)) with false. change (Nat.eqb 123 (nn 123)) with true. cbv iota. rewrite E2.
+  destruct (Nat.ltb max_nesting (S d)) eqn:El; [apply Nat.ltb_lt in El; lia|].
+  cbn [read_map]. rewrite E3.
+  change (Nat.eqb 125 0) with false. change (Nat.eqb 125 (nn 125)) with true. cbv iota. rewrite E4. reflexivity.
+Qed.
+End Empties.
